@@ -85,6 +85,10 @@ PeerSelectionOK(a, ts) ==
 (* Layer A: is the observed step an instance of the named spec action?     *)
 
 AllSeqs == UNION {Perms(T) : T \in SUBSET Node}
+\* the joining node builds its digest from a map: the engine logs the digest it read just before the call, the
+\* one sent may name the same nodes in another order (the order is visible only in the order of the events)
+DigOrders(ds) ==
+  {[i \in DOMAIN ds |-> ds[CHOOSE j \in DOMAIN ds : ds[j].id = ord[i]]] : ord \in Perms({ds[j].id : j \in DOMAIN ds})}
 
 CoreOK(e) ==
   CASE e.op = "UpsertLocal"    -> UpsertLocalCore(e.n, e.k, e.v)
@@ -95,7 +99,8 @@ CoreOK(e) ==
     [] e.op = "RecvDigest"     -> RecvDigestCore(e.slot, e.keep, e.cut, DigSeqOf(e.rseq), e.sendEmpty)
     [] e.op = "RecvDelta"      -> RecvDeltaCore(e.slot, e.keep)
     [] e.op = "Lose"           -> LoseCore(e.slot)
-    [] e.op = "JoinStream"     -> \E fseq \in AllSeqs : JoinStreamCore(e.a, e.b, DigSeqOf(e.dseq), fseq)
+    [] e.op = "JoinStream"     -> \E ds \in DigOrders(DigSeqOf(e.dseq)), fseq \in AllSeqs :
+                                     JoinStreamCore(e.a, e.b, ds, fseq)
     [] e.op = "LeaveStream"    -> LeaveStreamCore(e.a, e.b)
     [] e.op = "SetSuspect"     -> SetSuspectCore(e.a, e.n, e.flag)
     [] e.op = "UpdateLiveness" -> UpdateLivenessCore(e.a, e.ord)
@@ -122,9 +127,9 @@ LooseEq(x, y) ==
 EvOK(e) ==
   IF e.op \in {"Reset", "Hostile"} THEN TRUE
   ELSE IF e.op = "JoinStream"
-       THEN \E fseq \in AllSeqs :
-              /\ JoinStreamCore(e.a, e.b, DigSeqOf(e.dseq), fseq)
-              /\ LooseEq(EvSeqOf(e.evts), JoinStreamEv(e.a, e.b, DigSeqOf(e.dseq), fseq))
+       THEN \E ds \in DigOrders(DigSeqOf(e.dseq)), fseq \in AllSeqs :
+              /\ JoinStreamCore(e.a, e.b, ds, fseq)
+              /\ LooseEq(EvSeqOf(e.evts), JoinStreamEv(e.a, e.b, ds, fseq))
        ELSE LooseEq(EvSeqOf(e.evts), SpecEv(e))
 
 -----------------------------------------------------------------------------
